@@ -5,6 +5,7 @@ cd "$(dirname "$0")"
 mkdir -p .work evidence
 cd spec
 for f in *.tla; do
+  case "$f" in *Ind.tla) continue ;; esac   # Apalache-only wrappers (EXTENDS Apalache): type-checked by apalache-mc in the check itself
   java -cp /opt/veriftools/tla/tla2tools.jar:/opt/veriftools/tla/CommunityModules-deps.jar tla2sany.SANY "$f" > ../.work/sany.log 2>&1 || { cat ../.work/sany.log; echo "SANY failed on $f"; exit 1; }
 done
 cd ..
